@@ -5,6 +5,7 @@
 import NPModel.Refine.Validate
 import NPModel.Refine.Views
 import NPModel.Refine.Samples
+import NPModel.Refine.Observers
 namespace NP.C03
 open NP
 variable {α : Type}
@@ -74,5 +75,52 @@ theorem list_struct_view_exists (s : PStruct α) (hw : s.WF = true) (hne : s.nul
 /-- non-vacuity: a sliced list array with a null list -/
 example : Samples.la.WF = true ∧ Samples.la.nullEmpty = true ∧
     (Samples.la.rows.map fun r => (r.getD []).length) = diffs Samples.la.offs := by decide
+
+/-- **Every view is a function of the same rows — column level.**  On validated storage whose
+    missing rows store nothing (`PCol.Clean`: well formed, null ⇒ empty extent, accepted by the
+    validator, no hidden child lists, at least one field) — any number of chunks, any slice
+    offsets and buffers — the observers of the implementation model are the corresponding
+    functions of `c.rows`, the element view:
+    `list_lengths` = the rows' record counts (missing and empty rows count 0), -/
+theorem list_lengths_of_rows (c : PCol α) (h : c.Clean) : NArr.listLengths c = .ok (c.rows.map Row.len) :=
+  listLengths_refines c h
+
+/-- `flat_length` = the total number of records, -/
+theorem flat_length_of_rows (c : PCol α) (h : c.Clean) : NArr.flatLength c = .ok (Spec.flatLength c.rows) :=
+  flatLength_refines c h
+
+/-- `list_offsets` = the cumulative record counts from 0 — on BOTH code paths (one chunk: the
+    first field's re-based offsets; several chunks: cumulative sum of the lengths), -/
+theorem list_offsets_of_rows (c : PCol α) (h : c.Clean) :
+    NArr.listOffsets c = .ok (offsetsFrom 0 (c.rows.map Row.len)) :=
+  listOffsets_refines c h
+
+/-- `get_list_index` = the row ordinal of every record, -/
+theorem list_index_of_rows (c : PCol α) (h : c.Clean) : NArr.getListIndex c = .ok (Spec.listIndex c.rows) :=
+  getListIndex_refines c h
+
+/-- `get_flat_index` = the row's label once per record, -/
+theorem flat_index_of_rows (index : List Label) (c : PCol α) (h : c.Clean) :
+    NSeries.getFlatIndex { index := index, col := c } = .ok (Spec.flatIndex index c.rows) :=
+  getFlatIndex_refines index c h
+
+/-- the flat values of a field = the concatenation of the field's lists over the rows, -/
+theorem flat_field_of_rows (c : PCol α) (h : c.Clean) (f : String) (hf : c.ty.any (·.1 == f) = true) :
+    NArr.flatField c f = .ok (Spec.flatField c.rows f) :=
+  flatField_refines c h f hf
+
+/-- and `to_flat()` = the flat table of the rows (index and every column, lengths consistent). -/
+theorem to_flat_of_rows (index : List Label) (c : PCol α) (h : c.Clean) (hch : c.chunks ≠ [])
+    (hidx : index.length = c.len) :
+    NSeries.toFlat { index := index, col := c } none = Spec.toFlat index c.abs none :=
+  toFlat_refines index c h hch hidx
+
+/-- non-vacuity: the three-chunk sample column (a sliced chunk with a missing row, an empty chunk,
+    a chunk whose fields sit in different buffers) is `Clean` -/
+example : Samples.c1.Clean := by
+  refine ⟨by decide, by decide, by decide, ?_, by decide⟩
+  intro s hs
+  simp only [Samples.c1, List.mem_cons, List.not_mem_nil, or_false] at hs
+  rcases hs with rfl | rfl | rfl <;> (unfold PStruct.noHidden; decide)
 
 end NP.C03
